@@ -14,11 +14,22 @@ extern "C" void __sanitizer_symbolize_pc(void *pc, const char *fmt, char *out_bu
 
 // ------------------------------------------------------------------ fault injector (public jwt_set_alloc)
 static volatile bool g_armed = false; static long g_count = 0, g_fail_at = -1; static void *g_bt[40]; static int g_btn = 0; static int g_btfd = -1;
+static std::string g_cur_scen;
+static void fi_foreign(void *p) {
+  if (g_fail_at < 0) {   // fault-free baseline run in the parent: record and go on (the block is simply not released)
+    stats().violation("C17:pointer-not-from-installed-allocator-freed:fault-free-run", "the library passed a pointer that the installed allocator never returned to its free hook (fault-free run of " + g_cur_scen.substr(0, 80) + ")", "{\"scenario\":" + jstr(g_cur_scen) + ",\"fault_index\":0,\"mode\":\"fault-free\"}");
+    return;
+  }
+  fprintf(stderr, "ERROR: VerifAllocator: pointer-not-from-installed-allocator passed to its free hook (%p)\n", p); fflush(stderr); abort();
+}
+static void *fi_malloc(size_t n);
+static void *fi_malloc_real(size_t n) { void *p = malloc(n ? n : 1); if (p) guard_live().insert(p); return p; }
 static void *fi_malloc(size_t n) {
   if (g_armed) { g_count++; if (g_count == g_fail_at) { bool a = g_armed; g_armed = false; g_btn = backtrace(g_bt, 40); if (g_btfd >= 0) { if (write(g_btfd, &g_btn, sizeof g_btn) < 0 || write(g_btfd, g_bt, sizeof(void *) * g_btn) < 0) {} } g_armed = a; return nullptr; } }
-  return malloc(n);
+  bool a2 = g_armed; g_armed = false; void *p = fi_malloc_real(n); g_armed = a2; return p;
 }
-static void fi_free(void *p) { free(p); }
+// everything the library releases through the hook must have come from the hook
+static void fi_free(void *p) { if (!p) return; bool a = g_armed; g_armed = false; bool ours = guard_live().erase(p) != 0; g_armed = a; if (!ours) { fi_foreign(p); return; } free(p); }
 template <class F> static auto lib(F f) -> decltype(f()) { g_armed = true; auto r = f(); g_armed = false; return r; }
 template <class F> static void libv(F f) { g_armed = true; f(); g_armed = false; }
 
@@ -227,7 +238,7 @@ static void build_scenarios(bool thorough) {
 // ------------------------------------------------------------------ running
 static size_t g_first_div = 0;
 static std::vector<std::string> run_scen(const Scen &s, const std::vector<std::string> *base, bool *diverged, bool cont = false) {
-  Tr tr; tr.base = base; tr.cont = cont; T = &tr; g_count = 0; g_armed = false;
+  Tr tr; tr.base = base; tr.cont = cont; T = &tr; g_count = 0; g_armed = false; g_cur_scen = s.name;
   try { s.run(); } catch (Stop &) {}
   g_armed = false; if (diverged) *diverged = tr.diverged; g_first_div = tr.first_div; return tr.e;
 }
@@ -280,7 +291,7 @@ static ChildRes run_child(const Scen &s, const std::vector<std::string> &base, l
 // classify a child's result against the baseline: "" = fine
 static std::string judge(const std::vector<std::string> &base, const ChildRes &c);
 static std::string judge(const std::vector<std::string> &base, const ChildRes &c) {
-  if (c.crashed) { std::string kind = "crash"; size_t p = c.err.find("ERROR: AddressSanitizer: "); if (p != std::string::npos) { kind = c.err.substr(p + 25, 40); kind = kind.substr(0, kind.find_first_of(" \n")); } else if (c.err.find("runtime error:") != std::string::npos) kind = "ubsan"; else if (WIFSIGNALED(c.status)) kind = "signal" + std::to_string(WTERMSIG(c.status)); return "crash:" + kind; }
+  if (c.crashed) { std::string kind = "crash"; size_t p = c.err.find("ERROR: AddressSanitizer: "); if (c.err.find("ERROR: VerifAllocator:") != std::string::npos) kind = "pointer-not-from-installed-allocator-freed"; else if (p != std::string::npos) { kind = c.err.substr(p + 25, 40); kind = kind.substr(0, kind.find_first_of(" \n")); } else if (c.err.find("ERROR: VerifAllocator:") != std::string::npos) kind = "pointer-not-from-installed-allocator-freed"; else if (c.err.find("runtime error:") != std::string::npos) kind = "ubsan"; else if (WIFSIGNALED(c.status)) kind = "signal" + std::to_string(WTERMSIG(c.status)); return "crash:" + kind; }
   if (!c.diverged) { if (c.tr.size() != base.size()) return "transcript-length-differs"; return ""; }
   if (c.tr.size() > c.first_div + 1) {
     // continue mode: the first differing entry must be a documented failure; what follows may differ legitimately, but a
@@ -329,10 +340,10 @@ int main(int argc, char **argv) {
     std::string name = json_string_value(json_object_get(j.p, "scenario")); long k = (long)json_integer_value(json_object_get(j.p, "fault_index"));
     { size_t sp = name.find("/seed"); if (name.rfind("history/", 0) == 0 && sp != std::string::npos) { G_SEED = strtoull(name.c_str() + sp + 5, nullptr, 10); SC.clear(); build_scenarios(true); } }
     if (a.kv.count("all")) {}
-    for (size_t si = 0; si < SC.size(); si++) if (SC[si].name == name) { std::vector<std::string> base = run_scen(SC[si], nullptr, nullptr); G_CONT_ALL = true; std::string r = one(si, k, base, false, false); if (!r.empty()) fprintf(stderr, "replay: %s\n", r.c_str()); return r.empty() ? 0 : 3; }
+    for (size_t si = 0; si < SC.size(); si++) if (SC[si].name == name) { std::vector<std::string> base = run_scen(SC[si], nullptr, nullptr); if (k == 0) return stats().violations.empty() ? 0 : 3; G_CONT_ALL = true; std::string r = one(si, k, base, false, false); if (!r.empty()) fprintf(stderr, "replay: %s\n", r.c_str()); return r.empty() ? 0 : 3; }
     // thorough-only scenario replayed in quick mode: build the full catalogue
     SC.clear(); build_scenarios(true);
-    for (size_t si = 0; si < SC.size(); si++) if (SC[si].name == name) { std::vector<std::string> base = run_scen(SC[si], nullptr, nullptr); G_CONT_ALL = true; std::string r = one(si, k, base, false, false); return r.empty() ? 0 : 3; }
+    for (size_t si = 0; si < SC.size(); si++) if (SC[si].name == name) { std::vector<std::string> base = run_scen(SC[si], nullptr, nullptr); if (k == 0) return stats().violations.empty() ? 0 : 3; G_CONT_ALL = true; std::string r = one(si, k, base, false, false); return r.empty() ? 0 : 3; }
     return 2;
   }
   long total = 0; std::string per;
